@@ -227,7 +227,11 @@ func execRoundtrip(a []string) Result {
 		}
 		var blk ipld.Block
 		id := 10000 + k
-		switch (aseed >> (2 * k)) % 4 {
+		switch (aseed >> (3 * k)) % 5 {
+		case 4: // a block of the caller's own type (a plain value holding a slice), not one the library made
+			data := []byte{0x18, byte(100 + k)}
+			h, _ := mh.Sum(data, mh.SHA2_256, -1)
+			blk = valBlock{cidlink.Link{Cid: cid.NewCidV1(0x71, h)}, data}
 		case 1: // a block whose CID carries its bytes (identity multihash)
 			data := []byte{0x18, byte(100 + k)}
 			h, _ := mh.Sum(data, mh.IDENTITY, -1)
@@ -580,3 +584,12 @@ func hasInt(l []int, x int) bool {
 	}
 	return false
 }
+
+// valBlock: an ipld.Block implemented by a plain struct value
+type valBlock struct {
+	l ipld.Link
+	b []byte
+}
+
+func (v valBlock) Link() ipld.Link { return v.l }
+func (v valBlock) Bytes() []byte   { return v.b }
